@@ -158,7 +158,8 @@ def monitor(ctx):
                 if b0 != b1:
                     hits.setdefault(f"C15/reencode/{sfx}", (f"{sfx}: the parsed-back message encodes to {b1.hex() if b1 else None}, the original to {b0.hex() if b0 else None}", sfx, x))
     # dump: exactly the matching messages, in order
-    for dump_pgns in ([], [127508], ["batteryStatus"], ["vesselHeading", 130312], ["BATTERYSTATUS"]):
+    for dump_pgns in ([], [127508], ["batteryStatus"], ["vesselHeading", 130312], ["BATTERYSTATUS"], ["airmarAddressableMultiFrame"],
+                      ["0x1ef00ManufacturerProprietaryFastPacketAddressed", 128275], ["0x1ff000x1ffffManufacturerSpecificFastPacketNonAddressed"], ["lowranceTemperature", "simnetLgc2000Configuration"]):
         with tempfile.TemporaryDirectory() as td:
             fn = os.path.join(td, "d.jsonl")
             d = NMEA2000Decoder(dump_to_file=fn, dump_pgns=dump_pgns)
